@@ -73,21 +73,22 @@ var selfMutants = []selfMutant{
 	{Rule: "R-NILFIELD", File: "js/ast.go", Old: "	if n.Cond != nil {\n		n.Cond.JS(w)\n	}\n	w.Write([]byte(\"; \"))", New: "	n.Cond.JS(w)\n	w.Write([]byte(\"; \"))", Why: "optional ForStmt.Cond used without nil test"},
 	{Rule: "R-INDENT", File: "js/ast.go", Old: "func (n LiteralExpr) JS(w io.Writer) {\n	if wi, ok := w.(parse.Indenter); ok {\n		w = wi.Writer\n	}\n	w.Write(n.Data)", New: "func (n LiteralExpr) JS(w io.Writer) {\n	w.Write(n.Data)", Why: "literal written through the Indenter"},
 	{Rule: "R-STACK", File: "css/parse.go", Old: "				if 1 < len(p.state) {\n					p.state = p.state[:len(p.state)-1]\n				}\n				p.err, p.errPos = \"unexpected ending in at rule\", p.l.r.Offset()", New: "				p.state = p.state[:len(p.state)-1]\n				p.err, p.errPos = \"unexpected ending in at rule\", p.l.r.Offset()", Why: "unguarded pop outside a state function", Props: []string{"C08", "C01"}},
-	{Rule: "R-STACK", File: "json/parse.go", Old: "			if state != ObjectKeyState {\n				p.err = parse.NewErrorLexer(p.r, \"unexpected right brace character\")\n				return ErrorGrammar, nil\n			}\n", New: "", Why: "closing brace pops without checking the container kind", Props: []string{"C10", "C01"}},
+	{Rule: "R-STACK", File: "json/parse.go", Old: "		if state != ObjectKeyState {\n			p.err = parse.NewErrorLexer(p.r, \"unexpected right brace character\")\n			return ErrorGrammar, nil\n		}\n", New: "", Why: "closing brace pops without checking the container kind", Props: []string{"C10", "C01"}},
+	{Rule: "R-JSONKEY", File: "json/parse.go", Old: "	} else if c == '[' && state != ObjectKeyState {", New: "	} else if c == '[' {", Why: "array accepted in object-key position"},
 	{Rule: "R-BEGINEND", File: "css/parse.go", Old: "		p.state = p.state[:len(p.state)-1]\n		p.keepWS = false\n		return EndAtRuleGrammar", New: "		p.state = p.state[:len(p.state)-1]\n		p.keepWS = false\n		return EndRulesetGrammar", Why: "wrong End unit after pop"},
 	{Rule: "R-EOFNEST", File: "css/parse.go", Only: "cssparser", Old: "		if tt, data := p.popToken(false); tt != ErrorToken {\n			p.tt = tt\n			p.data = append(p.data, data...)\n		}", New: "		tt, data := p.popToken(false)\n		p.tt = tt\n		p.data = append(p.data, data...)", Why: "end of input merged into the '*' hack"},
 	// engine rules
 	{Rule: "R-CURSOR", File: "css/lex.go", Only: "css", Old: "		if c == 0 && l.r.Err() != nil {\n			break\n		} else if c == '\\n' || c == '\\r' || c == '\\f' {", New: "		if c == '\\n' || c == '\\r' || c == '\\f' {", Why: "string scanner no longer stops at the end of input"},
 	{Rule: "R-CURSOR", File: "html/lex.go", Only: "html", Old: "			l.text = l.r.Lexeme()[2:]\n			l.r.Move(1)\n			return l.r.Shift()", New: "			l.text = l.r.Lexeme()[3:]\n			l.r.Move(1)\n			return l.r.Shift()", Why: "comment text sliced beyond a 2-byte token"},
 	{Rule: "R-PROGRESS", File: "xml/lex.go", Only: "xml", Old: "		} else if c == 0 {\n			return l.r.Shift()\n		}\n		l.r.Move(1)\n	}\n}\n\nfunc (l *Lexer) shiftStartTag", New: "		} else if c == 0 {\n			return l.r.Shift()\n		} else if c == '-' {\n			continue\n		}\n		l.r.Move(1)\n	}\n}\n\nfunc (l *Lexer) shiftStartTag", Why: "comment scanner loops without moving"},
-	{Rule: "R-EOF", File: "json/parse.go", Only: "json", Old: "			} else if c == 0 { // EOF\n				return ErrorGrammar, nil", New: "			} else if c == 0 { // EOF\n				return WhitespaceGrammar, nil", Why: "end of input not reported"},
+	{Rule: "R-EOF", File: "json/parse.go", Only: "json", Old: "		} else if c == 0 { // EOF\n			return ErrorGrammar, nil", New: "		} else if c == 0 { // EOF\n			return WhitespaceGrammar, nil", Why: "end of input not reported"},
 	{Rule: "R-ERRMOVE", File: "js/lex.go", Only: "js", Old: "			l.err = parse.NewErrorLexer(l.r, \"invalid number\")\n", New: "", Why: "error token after consuming input without recording an error"},
 	{Rule: "R-ERRSTUCK", File: "js/lex.go", Only: "js", Old: "	l.r.MoveRune() // allow to continue after error\n", New: "", Why: "error path no longer consumes the offending rune"},
 	{Rule: "R-TILE", File: "css/lex.go", Only: "css", Old: "	case ':':\n		l.r.Move(1)", New: "	case ':':\n		l.r.Skip()\n		l.r.Move(1)", Why: "css lexer skips bytes"},
 	{Rule: "R-SPELL", File: "css/lex.go", Only: "css", Old: "		case '^':\n			l.r.Move(2)\n			return PrefixMatchToken", New: "		case '^':\n			l.r.Move(2)\n			return SuffixMatchToken", Why: "'^=' returned as SuffixMatch"},
 	{Rule: "R-TAGSTATE", File: "xml/lex.go", Only: "xml", Old: "		l.r.Skip()\n		l.inTag = false\n", New: "		l.r.Skip()\n", Why: "closing token leaves inTag set"},
 	{Rule: "R-INPLACE", File: "html/lex.go", Only: "html", Old: "if h := ToHash(parse.ToLower(parse.Copy(l.r.Lexeme()[mark:]))); h == Script {", New: "if h := ToHash(parse.ToLower(l.r.Lexeme()[mark:])); h == Script {", Why: "input lower-cased in place"},
-	{Rule: "R-RESTORE", File: "js/lex.go", Only: "js", Old: "		} else if !l.consumeHexDigit() || !l.consumeHexDigit() || !l.consumeHexDigit() || !l.consumeHexDigit() {\n		l.r.Rewind(mark)\n		return false", New: "		} else if !l.consumeHexDigit() || !l.consumeHexDigit() || !l.consumeHexDigit() || !l.consumeHexDigit() {\n		return false", Why: "failed escape scan not rewound"},
+	{Rule: "R-RESTORE", File: "js/lex.go", Only: "js", Old: "	} else if !l.consumeHexDigit() || !l.consumeHexDigit() || !l.consumeHexDigit() || !l.consumeHexDigit() {\n		l.r.Rewind(mark)\n		return false", New: "	} else if !l.consumeHexDigit() || !l.consumeHexDigit() || !l.consumeHexDigit() || !l.consumeHexDigit() {\n		return false", Why: "failed escape scan not rewound"},
 }
 
 // extra declarations some mutants need (appended to the mutated file)
